@@ -314,6 +314,10 @@ def observed_tokens(an, v):
 def check_c10(an):
     run = an.run
     finished = run.outcome == 'finished' and run.server_exc is None and an.all_decided
+    # Everything has come to rest (no thread can move, nothing is in flight) in a session of
+    # conforming players with no injected abort: whatever the calls and cards made so far entitle
+    # a seat to -- relays, the lead prompt, dummy -- can no longer arrive, so it is owed.
+    at_rest = run.outcome == 'deadlock' and not run.scn.get('abort') and an.offending is None
     lead_dec = {}
     for i, d in enumerate(an.decisions):
         if d['card_decs']:
@@ -338,10 +342,11 @@ def check_c10(an):
                                               f'what it is entitled to, first '
                                               f'{fmt_tok(toks[len(exp)])}',
                        key=f'stream-extra:{toks[len(exp)][0]}')
-            elif finished and len(toks) < len(exp) and not _seat_left(run, s):
-                an.add('C10', 'stream-short', f'{s}: session completed but {len(exp) - len(toks)} '
-                                              f'message(s) never sent, first missing '
-                                              f'{fmt_tok(exp[len(toks)])}',
+            elif (finished or at_rest) and len(toks) < len(exp) and not _seat_left(run, s):
+                an.add('C10', 'stream-short',
+                       f'{s}: {"session completed" if finished else "everything is at rest"} but '
+                       f'{len(exp) - len(toks)} message(s) it is entitled to were never sent, '
+                       f'first missing {fmt_tok(exp[len(toks)])}',
                        key=f'stream-short:{exp[len(toks)][0]}')
         # causality: dummy is not disclosed on any connection before the opening lead was sent,
         # and before the second card
